@@ -8,17 +8,22 @@ import WcModel.Proofs.GlobList
   `denoteTop`, `DenotesB`).  Model: `Model/GlobWalk.lean`, tied to `glob.py` by K5 (parts,
   result sequence, scandir sequence).
 
-  FULL STATEMENT (C05_main), for every tree, walk configuration and part list:
+  FULL STATEMENT (C05_full), for every tree, walk configuration and part list:
       ∀ v, (∃ fuel, v ∈ results (globPattern c fs fuel parts)) ↔ DenotesTop fs c parts v
-  It is FALSE on the pinned tree: D14 (`re.match` accepts `name + "\n"`), D17 (`.`/`..` and the
-  zero-level `dir/` are produced below something that is not a directory) and — one level up,
-  in the seen set — KF-G2 (under IGNORECASE two different entries share one key).  Each is
-  witnessed below by `decide +kernel` and replayed on the real code by the check.
+  It is FALSE on the pinned tree: D17 (`.`/`..` and the zero-level `dir/` are produced below
+  something that is not a directory) and — one level up, in the seen set — KF-G2 (under
+  IGNORECASE two different entries share one key).  Each is witnessed below by
+  `decide +kernel` and replayed on the real code by the check.  A third defect, D14 (`re.match`
+  accepted `name + "\n"`), is REPAIRED (`_get_matcher` uses `fullmatch`): `D14_fixed_witness`
+  states the repaired behaviour on the old witness input.
 
   PROVED (`C05_partial`, `C05_partial_results`): the full statement for every tree and every
   part list under exactly the hypotheses that exclude those defects —
-    * `SegAgree`  : on the names the tree offers, the walker's per-part matcher (`re.match`)
-                    agrees with the segment language (full match)              [excludes D14]
+    * `SegAgree`  : on the names the tree offers, the walker's per-part matcher agrees with
+                    the segment language (full match).  It excluded D14; since the repair it
+                    is a THEOREM (`segAgree_all`: every tree, configuration and part list),
+                    and `C05_main_walk` / `C05_main_results` / `C05_main_follow`
+                    (`C05_main_split*` in `C05split.lean`) are the same statements WITHOUT it
     * `TopOK`     : the root is a directory, its entry names contain no `/`, a literal first
                     name followed by further parts names directories only      [excludes D17]
                     (+ two shape facts every `_GlobSplit` output has)
@@ -92,6 +97,34 @@ theorem C05_partial_follow (c : WalkCfg) (fs : FS) (absPat : Bool) (parts : List
     (∃ fuel, v ∈ results (globParts c fs absPat fuel parts d.path d.loc)) ↔ Denotes fs c parts d v :=
   globParts_iff_denotes_follow c fs absPat parts d.path d.loc hwf hag hd v
 
+/-- **`SegAgree` is a theorem** (since the D14 repair): the matcher the walker applies to a
+    compiled part (`fullmatch`) is the segment language, on every name -/
+theorem segAgree_all (fs : FS) (c : WalkCfg) (parts : List GPart) : SegAgree fs c parts :=
+  WcModel.segAgree_all fs c parts
+
+/-- **C05_partial without `SegAgree`**: the candidates the walker finds are exactly the denoted
+    paths — remaining hypotheses: no FOLLOW / `***`, fuel above the tree height, `WFParts`
+    (every `_GlobSplit` output), `TopOK` (excludes D17). -/
+theorem C05_main_walk (c : WalkCfg) (fs : FS) (hc : c.followLinks = false) (fuel : Nat) (hf : fs.top.height < fuel)
+    (parts : List GPart) (hl : NoLong parts) (hwf : WFParts parts) (ht : TopOK fs c parts) (v : Y) :
+    v ∈ results (globPattern c fs fuel parts) ↔ DenotesTop fs c parts v :=
+  C05_partial c fs hc fuel hf parts hl hwf (segAgree_all fs c parts) ht v
+
+/-- **C05_partial_results without `SegAgree`** -/
+theorem C05_main_results (w : WCtx) (fs : FS) (hc : w.followLinks = false) (fuel : Nat)
+    (hf : fs.top.height < fuel) (parts : List GPart) (hl : NoLong parts) (hwf : WFParts parts)
+    (ht : TopOK fs w.toWalkCfg parts) (x : List Char) :
+    x ∈ perPattern w fs fuel parts ↔
+      ∃ v, DenotesTop fs w.toWalkCfg parts v ∧ isExcluded w v = false ∧ x = formatPath w (dirOnlyOf parts) v :=
+  C05_partial_results w fs hc fuel hf parts hl hwf (segAgree_all fs w.toWalkCfg parts) ht x
+
+/-- **C05_partial_follow without `SegAgree`**: FOLLOW / `***` included, below a directory, for
+    some fuel — the only hypothesis left on the parts is `WFParts` -/
+theorem C05_main_follow (c : WalkCfg) (fs : FS) (absPat : Bool) (parts : List GPart) (d : Dir)
+    (hwf : WFParts parts) (hd : fs.locIsDir d.loc = true) (v : Y) :
+    (∃ fuel, v ∈ results (globParts c fs absPat fuel parts d.path d.loc)) ↔ Denotes fs c parts d v :=
+  C05_partial_follow c fs absPat parts d hwf (segAgree_all fs c parts) hd v
+
 /-- the heart of it: a `**` expansion (any matcher, with or without FOLLOW / `***`) yields
     exactly the one-level listings of the directories `Below` the starting one -/
 theorem star_is_below (c : WalkCfg) (fs : FS) (absPat : Bool) (m : Matcher) (dirOnly long : Bool) (d : Dir) (v : Y) :
@@ -111,11 +144,18 @@ def pA : List GPart := [⟨.re "[a]".toList reA, true, false, false, false, fals
 /-- r/ = { "a\n" } -/
 def tNl : FS := ⟨.dir [("a\n".toList, .file)], []⟩
 
-/-- **D14**: `glob('[a]')` returns the file named `a\n` (the part regex is applied with
-    `re.match`, and `$` accepts before a final newline); the pattern does not denote it. -/
-theorem D14_witness :
-    globResults wU tNl 3 [pA] = ["a\n".toList] ∧ denoteTop tNl wc true 3 pA = [] ∧
-    DenotesB tNl wc 3 pA "a\n".toList = false := by decide +kernel
+/-- r/ = { "a\n", a } -/
+def tNl2 : FS := ⟨.dir [("a\n".toList, .file), ("a".toList, .file)], []⟩
+
+/-- **D14, repaired**: `glob('[a]')` used to return the file named `a\n` (the part regex was
+    applied with `re.match`, and `$` accepts before a final newline — `reA.prefixmatch` below)
+    although the pattern does not denote it.  With `fullmatch` the walker returns exactly the
+    denoted names: nothing on `tNl`, only `a` on `tNl2`.  Fails again if the defect returns. -/
+theorem D14_fixed_witness :
+    globResults wU tNl 3 [pA] = [] ∧ denoteTop tNl wc true 3 pA = [] ∧
+    DenotesB tNl wc 3 pA "a\n".toList = false ∧
+    globResults wU tNl2 3 [pA] = ["a".toList] ∧ (denoteTop tNl2 wc true 3 pA).map (·.path) = ["a".toList] ∧
+    reA.prefixmatch "a\n".toList = true ∧ reA.fullmatch "a\n".toList = false := by decide +kernel
 
 /-- r/ = { f } (a regular file) -/
 def tF : FS := ⟨.dir [("f".toList, .file)], []⟩
@@ -137,7 +177,8 @@ theorem D17_dirfd_witness :
 
 /-- r/ = { a, A } -/
 def tCase : FS := ⟨.dir [("a".toList, .file), ("A".toList, .file)], []⟩
-def reStar : Re := .cat (.look true (.lit '.')) (.star true .any)
+/-- `*` as a compiled part, reduced to what matters here: `^(?s:(?!\.).*?)$` -/
+def reStar : Re := .cat .bos (.cat (.flags true false (.cat (.look true (.lit '.')) (.star true .any))) .eos)
 def pStar : List GPart := [⟨.re "*".toList reStar, true, false, false, false, false⟩]
 
 /-- **KF-G2**: under IGNORECASE `glob('*')` returns `a` but not the different file `A` (one
@@ -158,14 +199,11 @@ example : globResults wU tOk 6 [pAstar] = ["a/".toList, "a/b".toList, "a/b/c".to
   decide +kernel
 
 /-- non-vacuity of `C05_partial`: its hypotheses hold for `a/**` on `tOk` (all parts are
-    literal or `**`, so `SegAgree` is by definition), giving the equivalence for every `v` -/
+    literal or `**`), giving the equivalence for every `v` -/
 example (v : Y) : v ∈ results (globPattern wc tOk 6 pAstar) ↔ DenotesTop tOk wc pAstar v := by
-  apply C05_partial wc tOk rfl 6 (by decide +kernel) pAstar
+  apply C05_main_walk wc tOk rfl 6 (by decide +kernel) pAstar
   · intro p hp; simp [pAstar] at hp; rcases hp with rfl | rfl <;> rfl
   · exact ⟨rfl, trivial⟩
-  · intro p hp d o _
-    simp [pAstar] at hp
-    rcases hp with rfl | rfl <;> rfl
   · refine ⟨by decide +kernel, by decide +kernel, ?_, ?_, ?_⟩
     · intro p rest h; simp [pAstar] at h; obtain ⟨rfl, _⟩ := h; decide +kernel
     · intro p q rest h _ _; simp [pAstar] at h; obtain ⟨rfl, _, _⟩ := h; decide +kernel
